@@ -106,6 +106,7 @@ def verify_unit_worker(qualname: str) -> dict:
                         try:
                             m2 = bounded_model(ob, r.axioms, r.recdefs, B=B)
                         except Exception:
+                            rec["bounded_model_error"] = traceback.format_exc()[-800:]
                             m2 = None
                         if m2 is not None:
                             rp2 = replay_model(reg, c, r, ob, m2)
